@@ -127,6 +127,17 @@ var pathCases = []pathCase{
 	{"t.Ptr.Kids[0].Get()", func(t T) string { return t.Ptr.Kids[0].Get() }},
 	{"ts[1].Kids[0].Get()", func(t T) string { return t.Kids[1].Kids[0].Get() }},
 	{"t.Next().Next()", func(t T) string { return "" }},
+	// a field path between an index / a call and a method call (49f0ea2)
+	{"t.Kids[0].Ptr.Get()", func(t T) string { return t.Kids[0].Ptr.Get() }},
+	{"t.Kids[1].Ptr.PName()", func(t T) string { return t.Kids[1].Ptr.PName() }},
+	{"t.Kids[1].Ptr.Pick(t.Name)", func(t T) string { return t.Kids[1].Ptr.Pick(t.Name) }},
+	{"t.Kids[0].Ptr.Kids[0].Get()", func(t T) string { return t.Kids[0].Ptr.Kids[0].Get() }},
+	{"ts[1].Ptr.Get()", func(t T) string { return t.Kids[1].Ptr.Get() }},
+	{"t.Self().Ptr.Get()", func(t T) string { return t.Self().Ptr.Get() }},
+	{"t.Kid(0).Ptr.Get()", func(t T) string { return t.Kid(0).Ptr.Get() }},
+	{"t.Kid(1).Ptr.Kid(0).Name", func(t T) string { return t.Kid(1).Ptr.Kid(0).Name }},
+	{"t.Kids[0].Ptr.Self().Name", func(t T) string { return t.Kids[0].Ptr.Self().Name }},
+	{"t.Self().Ptr.Kids[0].Get()", func(t T) string { return t.Self().Ptr.Kids[0].Get() }},
 }
 
 func ctxFor(t T) *plush.Context {
